@@ -151,10 +151,23 @@ class Skel:
     return ARR
 
 
-def flatten_diff(a, b, path=''):
-  """List of (path, a_sub, b_sub) where skeletons differ."""
+def flatten_diff(a, b, path='', star_len=None):
+  """List of (path, a_sub, b_sub) where skeletons differ.  `star_len`: known length of the homogeneous lists in this
+  comparison (e.g. one entry per tensor axis under a rank witness), so that `[x for ...]` and a literal list of that
+  length compare entry by entry."""
   if a == b:
     return []
+  if star_len is not None and isinstance(a, tuple) and isinstance(b, tuple):
+    if a[0] == 'list*' and b[0] == 'list' and len(b[1]) == star_len:
+      out = []
+      for i, y in enumerate(b[1]):
+        out.extend(flatten_diff(a[1], y, f'{path}[{i}]', star_len))
+      return out
+    if b[0] == 'list*' and a[0] == 'list' and len(a[1]) == star_len:
+      out = []
+      for i, x in enumerate(a[1]):
+        out.extend(flatten_diff(x, b[1], f'{path}[{i}]', star_len))
+      return out
   if isinstance(a, tuple) and isinstance(b, tuple) and a[0] == b[0] == 'rec' and a[1] == b[1]:
     out = []
     fa, fb = dict(a[2]), dict(b[2])
@@ -162,7 +175,7 @@ def flatten_diff(a, b, path=''):
       if k not in fa or k not in fb:
         out.append((path + '.' + k, fa.get(k), fb.get(k)))
       else:
-        out.extend(flatten_diff(fa[k], fb[k], path + '.' + k))
+        out.extend(flatten_diff(fa[k], fb[k], path + '.' + k, star_len))
     sa, sb = dict(a[3]), dict(b[3])
     for k in sa:
       if sa.get(k) != sb.get(k) and 'payload-dtype' not in (sa.get(k), sb.get(k)):
@@ -171,10 +184,10 @@ def flatten_diff(a, b, path=''):
   if isinstance(a, tuple) and isinstance(b, tuple) and a[0] == b[0] == 'list' and len(a[1]) == len(b[1]):
     out = []
     for i, (x, y) in enumerate(zip(a[1], b[1])):
-      out.extend(flatten_diff(x, y, f'{path}[{i}]'))
+      out.extend(flatten_diff(x, y, f'{path}[{i}]', star_len))
     return out
   if isinstance(a, tuple) and isinstance(b, tuple) and a[0] == b[0] == 'list*':
-    return flatten_diff(a[1], b[1], path + '[*]')
+    return flatten_diff(a[1], b[1], path + '[*]', star_len)
   return [(path, a, b)]
 
 
